@@ -183,12 +183,33 @@ pub fn parse_bytes(s: &str) -> Result<Vec<u8>, ParseSequenceError> {
 /// The returned result can display a human readable error if the string cannot be parsed as a
 /// valid quoted string.
 pub fn parse_string(s: &str) -> Result<String, ParseSequenceError> {
+    // A triple-quoted literal may contain its own quote character: strip the delimiters once
+    // and take the quotes inside the body literally.
+    let (raw, unprefixed) = match s.strip_prefix(['r', 'R']) {
+        Some(rest) => (true, rest),
+        None => (false, s),
+    };
+    for delimiter in ["'''", "\"\"\""] {
+        if unprefixed.len() >= 6
+            && unprefixed.starts_with(delimiter)
+            && unprefixed.ends_with(delimiter)
+        {
+            let body = &unprefixed[3..unprefixed.len() - 3];
+            if raw {
+                return Ok(body.to_string());
+            }
+            let quote = delimiter.chars().next().unwrap();
+            let res = String::with_capacity(body.len());
+            return parse_quoted_string(s, &mut body.chars().enumerate(), res, quote, true);
+        }
+    }
+
     let mut chars = s.chars().enumerate();
     let res = String::with_capacity(s.len());
 
     match chars.next() {
         Some((_, c)) if c == 'r' || c == 'R' => parse_raw_string(&mut chars, res),
-        Some((_, c)) if c == '\'' || c == '"' => parse_quoted_string(s, &mut chars, res, c),
+        Some((_, c)) if c == '\'' || c == '"' => parse_quoted_string(s, &mut chars, res, c, false),
         _ => Err(ParseSequenceError::MissingOpeningQuote),
     }
 }
@@ -260,6 +281,7 @@ fn parse_quoted_string(
     mut chars: &mut Enumerate<Chars>,
     mut res: String,
     quote: char,
+    literal_quotes: bool,
 ) -> Result<String, ParseSequenceError> {
     let mut in_single_quotes = quote == '\'';
     let mut in_double_quotes = quote == '"';
@@ -339,7 +361,7 @@ fn parse_quoted_string(
                 }
             };
         } else if c == '\'' {
-            if in_double_quotes {
+            if in_double_quotes || literal_quotes {
                 res.push(c);
                 continue;
             }
@@ -347,7 +369,7 @@ fn parse_quoted_string(
             in_single_quotes = !in_single_quotes;
             continue;
         } else if c == '"' {
-            if in_single_quotes {
+            if in_single_quotes || literal_quotes {
                 res.push(c);
                 continue;
             }
@@ -362,7 +384,7 @@ fn parse_quoted_string(
     }
 
     // Ensure string has a closing quote
-    if in_single_quotes || in_double_quotes {
+    if !literal_quotes && (in_single_quotes || in_double_quotes) {
         return Err(ParseSequenceError::MissingClosingQuote);
     }
 
